@@ -17,6 +17,7 @@ package main
 
 import (
 	"fmt"
+	"strings"
 
 	"github.com/tuneinsight/lattigo/v6/ring"
 	"github.com/tuneinsight/lattigo/v6/ring/ringqp"
@@ -162,6 +163,8 @@ func c17ProbeViews(c *Ctx) {
 		}
 	}
 	c17ProbeViewsQP(c)
+	c17ProbeDeriveUniform(c, r, N, chain)
+	c17ProbeDeriveQP(c)
 	// shared state: a call on the base sampler, then a call on a view derived BEFORE or AFTER it,
 	// continues the base sampler's stream (PRNG, random buffer, pointer)
 	for round := 0; round < rounds; round++ {
@@ -169,7 +172,9 @@ func c17ProbeViews(c *Ctx) {
 			for l := 0; l < len(chain); l++ {
 				for _, early := range []bool{false, true} {
 					for _, op := range []byte{'r', 'n', 'a'} {
-						c17ProbeSharedState(c, r, N, chain, kd, l, early, op)
+						for _, pre := range []int{0, 1, 3} {
+							c17ProbeSharedState(c, r, N, chain, kd, l, early, op, pre)
+						}
 					}
 				}
 			}
@@ -181,14 +186,14 @@ func c17ProbeViews(c *Ctx) {
 // The ternary and Gaussian samplers consume the same bytes at every level, so rows 0..l of the
 // twin's second sample are the expected sample at level l; for the uniform sampler (consumption
 // depends on the level) only views at the top level are compared.
-func c17ProbeSharedState(c *Ctx, r *ring.Ring, N int, chain []uint64, kd c17Kind, l int, early bool, op byte) {
+func c17ProbeSharedState(c *Ctx, r *ring.Ring, N int, chain []uint64, kd c17Kind, l int, early bool, op byte, pre int) {
 	top := len(chain) - 1
 	if kd.tag == "u" && l != top {
 		return
 	}
 	key := c.rng.Bytes(16)
 	fk := "C17/" + c17SamplerName(kd) + ".AtLevel/shared-state"
-	args := fmt.Sprintf("kind=%s level=%d derivedBeforeBaseCall=%v op=%c N=%d Q=%s key=%s", kd.String(), l, early, op, N, Vec(chain), Hex(key))
+	args := fmt.Sprintf("kind=%s level=%d readsBefore=%d derivedBeforeBaseCall=%v op=%c N=%d Q=%s key=%s", kd.String(), l, pre, early, op, N, Vec(chain), Hex(key))
 	before := c17Regs(c, 1, N, chain, 0)[0]
 	detail := Try(func() string {
 		base, err := c17NewSampler(c17Keyed(key), r, kd)
@@ -198,6 +203,11 @@ func c17ProbeSharedState(c *Ctx, r *ring.Ring, N int, chain []uint64, kd c17Kind
 		kp := kd
 		kp.mont = false
 		twin, _ := c17NewSampler(c17Keyed(key), r, kp)
+		for k := 0; k < pre; k++ { // the receiver has been read (its buffer is partially consumed)
+			if d := c17FirstDiff(base.ReadNew().Coeffs, c17Expect(r, top, kd.mont, 'n', nil, twin.ReadNew())); d != "" {
+				return fmt.Sprintf("read %d before deriving: %s", k, d)
+			}
+		}
 		var view ring.Sampler
 		if early {
 			view = base.AtLevel(top).AtLevel(l)
@@ -402,6 +412,204 @@ func c17ProbeViewsQP(c *Ctx) {
 				detail = "panic in the derived sampler"
 			}
 			c.Probe("view-representation", args, fk, detail)
+		}
+	}
+}
+
+// ---- derivations of a sampler that HAS BEEN READ: the unbuffered word-stream specification ----
+
+// c17Words is the specification of the uniform sampler (Lean: specRows, proved equal to the
+// buffered sampler in uniform_consumes): big-endian 64-bit words of the generator's stream, taken
+// one after the other, masked, rejected when >= q.
+type c17Words struct {
+	data []byte
+	pos  int
+}
+
+func (w *c17Words) sample(chain []uint64, lvl, N int) ring.Poly {
+	p := ring.NewPoly(N, lvl)
+	for j := 0; j <= lvl; j++ {
+		q := chain[j]
+		mask := uint64(1)<<uint(bitsLen64(q-1)) - 1
+		for i := 0; i < N; i++ {
+			for {
+				var v uint64
+				for z := 0; z < 8; z++ {
+					v = v<<8 | uint64(w.data[w.pos+z])
+				}
+				w.pos += 8
+				if v &= mask; v < q {
+					p.Coeffs[j][i] = v
+					break
+				}
+			}
+		}
+	}
+	return p
+}
+
+// every way of deriving a uniform sampler, after k reads of the receiver, then interleaved reads of
+// the receiver and of the derived sampler: each PRNG's word stream must be consumed in order by the
+// samplers attached to it and by nobody else.
+func c17ProbeDeriveUniform(c *Ctx, r *ring.Ring, N int, chain []uint64) {
+	top := len(chain) - 1
+	derivs := []string{"AtLevel", "AtLevel.AtLevel", "WithPRNG", "AtLevel.WithPRNG", "WithPRNG.AtLevel", "WithPRNG.WithPRNG"}
+	for round := 0; round < c.Scale(2, 12); round++ {
+		for _, dv := range derivs {
+			for _, pre := range []int{0, 1, 3} {
+				k1, k2, k3 := c.rng.Bytes(16), c.rng.Bytes(16), c.rng.Bytes(16)
+				l1, l2 := c.rng.Intn(len(chain)), c.rng.Intn(len(chain))
+				fk := "C17/Uniform." + dv + "/inherits-receiver-buffer"
+				if !strings.Contains(dv, "WithPRNG") {
+					fk = "C17/Uniform." + dv + "/shared-state"
+				}
+				type step struct {
+					who   int // 0 receiver, 1 derived
+					level int
+					op    byte
+				}
+				var steps []step
+				for k := 0; k < 6; k++ {
+					steps = append(steps, step{(k + 1) % 2, c.rng.Intn(len(chain)), "rna"[c.rng.Intn(3)]})
+				}
+				preLv := make([]int, pre)
+				for k := range preLv {
+					preLv[k] = c.rng.Intn(len(chain))
+				}
+				args := fmt.Sprintf("derive=%s l1=%d l2=%d readsBefore=%v steps=%v N=%d Q=%s key1=%s key2=%s key3=%s", dv, l1, l2, preLv, steps, N, Vec(chain), Hex(k1), Hex(k2), Hex(k3))
+				args = strings.ReplaceAll(strings.ReplaceAll(args, "} {", "};{"), " ", ",")
+				befores := c17Regs(c, len(steps), N, chain, 0)
+				detail := Try(func() string {
+					wA := &c17Words{data: c17XOF(k1, 1<<15)}
+					wB := &c17Words{data: c17XOF(k2, 1<<15)}
+					wC := &c17Words{data: c17XOF(k3, 1<<15)}
+					recv := ring.NewUniformSampler(c17Keyed(k1), r)
+					for k, lv := range preLv {
+						got := recv.AtLevel(lv).ReadNew()
+						if d := c17FirstDiff(got.Coeffs, wA.sample(chain, lv, N).Coeffs); d != "" {
+							return fmt.Sprintf("receiver read %d before deriving: %s", k, d)
+						}
+					}
+					// derive
+					var der ring.Sampler
+					wD := wA      // the word stream the derived sampler is attached to
+					dLevel := top // its own level (before the per-step AtLevel)
+					switch dv {
+					case "AtLevel":
+						der, dLevel = recv.AtLevel(l1), l1
+					case "AtLevel.AtLevel":
+						der, dLevel = recv.AtLevel(l1).AtLevel(l2), l2
+					case "WithPRNG":
+						der, wD = recv.WithPRNG(c17Keyed(k2)), wB
+					case "AtLevel.WithPRNG":
+						der, wD, dLevel = recv.AtLevel(l1).(*ring.UniformSampler).WithPRNG(c17Keyed(k2)), wB, l1
+					case "WithPRNG.AtLevel":
+						der, wD, dLevel = recv.WithPRNG(c17Keyed(k2)).AtLevel(l1), wB, l1
+					default: // WithPRNG.WithPRNG: the intermediate sampler is read once, then re-derived
+						mid := recv.WithPRNG(c17Keyed(k2))
+						if d := c17FirstDiff(mid.ReadNew().Coeffs, wB.sample(chain, top, N).Coeffs); d != "" {
+							return "intermediate WithPRNG sampler: " + d
+						}
+						der, wD = mid.WithPRNG(c17Keyed(k3)), wC
+					}
+					// the derived sampler itself (no further AtLevel) must sit at dLevel
+					if got := der.ReadNew(); true {
+						if d := c17FirstDiff(got.Coeffs, wD.sample(chain, dLevel, N).Coeffs); d != "" {
+							return "first read of the derived sampler: " + d
+						}
+					}
+					for i, st := range steps {
+						s, w := ring.Sampler(recv), wA
+						if st.who == 1 {
+							s, w = der, wD
+						}
+						pol := ring.Poly{Coeffs: c17CopyRows(befores[i])}
+						v := s.AtLevel(st.level)
+						switch st.op {
+						case 'r':
+							v.Read(pol)
+						case 'n':
+							pol = v.ReadNew()
+						default:
+							v.ReadAndAdd(pol)
+						}
+						want := c17Expect(r, st.level, false, st.op, befores[i], w.sample(chain, st.level, N))
+						if d := c17FirstDiff(pol.Coeffs, want); d != "" {
+							return fmt.Sprintf("step %d (%s, level %d, %c): %s", i, []string{"receiver", "derived"}[st.who], st.level, st.op, d)
+						}
+					}
+					return ""
+				})
+				if detail == "panic" {
+					detail = "panic"
+				}
+				c.Probe("derive-after-reads", args, fk, detail)
+			}
+		}
+	}
+}
+
+// ringqp.UniformSampler: WithPRNG / AtLevel.WithPRNG after k reads of the receiver; the derived
+// sampler equals a fresh sampler on the new PRNG, the receiver equals its own uninterrupted twin.
+func c17ProbeDeriveQP(c *Ctx) {
+	N := 16
+	cQ, cP := []uint64{65537, 1073741953}, []uint64{7937, 35184372088321}
+	rqp := ringqp.Ring{RingQ: c17Ring(N, cQ), RingP: c17Ring(N, cP)}
+	same := func(a, b ringqp.Poly) string {
+		if d := c17FirstDiff(a.Q.Coeffs, b.Q.Coeffs); d != "" {
+			return "Q: " + d
+		}
+		if d := c17FirstDiff(a.P.Coeffs, b.P.Coeffs); d != "" {
+			return "P: " + d
+		}
+		return ""
+	}
+	for round := 0; round < c.Scale(2, 12); round++ {
+		for _, dv := range []string{"WithPRNG", "AtLevel.WithPRNG", "AtLevel"} {
+			for _, pre := range []int{0, 1, 3} {
+				k1, k2 := c.rng.Bytes(16), c.rng.Bytes(16)
+				lq, lp := c.rng.Intn(len(cQ)), c.rng.Intn(len(cP))
+				fk := "C17/ringqp.Uniform." + dv + "/inherits-receiver-buffer"
+				if dv == "AtLevel" {
+					fk = "C17/ringqp.Uniform.AtLevel/shared-state"
+					lq, lp = len(cQ)-1, len(cP)-1 // the twin is one full-level sampler
+				}
+				args := fmt.Sprintf("derive=%s lq=%d lp=%d readsBefore=%d N=%d Q=%s P=%s key1=%s key2=%s", dv, lq, lp, pre, N, Vec(cQ), Vec(cP), Hex(k1), Hex(k2))
+				detail := Try(func() string {
+					recv := ringqp.NewUniformSampler(c17Keyed(k1), rqp)
+					twinR := ringqp.NewUniformSampler(c17Keyed(k1), rqp)
+					for k := 0; k < pre; k++ {
+						if d := same(recv.ReadNew(), twinR.ReadNew()); d != "" {
+							return fmt.Sprintf("receiver read %d: %s", k, d)
+						}
+					}
+					var der, twinD ringqp.UniformSampler
+					switch dv {
+					case "WithPRNG":
+						der = recv.WithPRNG(c17Keyed(k2))
+						twinD = ringqp.NewUniformSampler(c17Keyed(k2), rqp)
+					case "AtLevel.WithPRNG":
+						der = recv.AtLevel(lq, lp).WithPRNG(c17Keyed(k2))
+						twinD = ringqp.NewUniformSampler(c17Keyed(k2), rqp.AtLevel(lq, lp))
+					default:
+						der = recv.AtLevel(lq, lp)
+						twinD = twinR // continues the receiver's stream
+					}
+					for k := 0; k < 3; k++ {
+						if d := same(der.ReadNew(), twinD.ReadNew()); d != "" {
+							return fmt.Sprintf("derived read %d: %s", k, d)
+						}
+						if d := same(recv.ReadNew(), twinR.ReadNew()); d != "" {
+							return fmt.Sprintf("receiver read %d after deriving: %s", k, d)
+						}
+					}
+					return ""
+				})
+				if detail == "panic" {
+					detail = "panic"
+				}
+				c.Probe("derive-after-reads", args, fk, detail)
+			}
 		}
 	}
 }
